@@ -201,20 +201,65 @@ fn history(req: &Value) -> Value {
     std::fs::create_dir_all(&dir).unwrap();
     let gp = dir.join("g.rustemo");
     std::fs::write(&gp, req["grammar"].as_str().unwrap()).unwrap();
-    let actions = dir.join("g_actions.rs");
+    // where the actions file lives and who generates it: "tree" (API, actions_in_source_tree),
+    // "adir" (API, a separate actions directory; force(false) first, out_dir_actions_root last,
+    // the order rcomp uses), "cli" (plain rcomp: everything next to the grammar), "cli-a"
+    // (rcomp -o/-a)
+    let place = req.get("place").and_then(|x| x.as_str()).unwrap_or("tree").to_string();
+    let actions = if place == "adir" || place == "cli-a" {
+        dir.join("acts").join("g_actions.rs")
+    } else {
+        dir.join("g_actions.rs")
+    };
     let mut out = vec![];
     for step in req["steps"].as_array().unwrap() {
         let op = step["op"].as_str().unwrap();
         let mut outcome = json!("ok");
         match op {
+            "generate" if place == "cli" || place == "cli-a" => {
+                let mut cmd = std::process::Command::new(req["rcomp"].as_str().unwrap());
+                cmd.arg(&gp);
+                if place == "cli-a" {
+                    cmd.arg("-o").arg(dir.join("out")).arg("-a").arg(dir.join("acts"));
+                }
+                if step.get("force").and_then(|x| x.as_bool()) == Some(true) {
+                    cmd.arg("--force");
+                }
+                if req["settings"].get("loc_info").and_then(|x| x.as_bool()) == Some(true) {
+                    cmd.arg("--builder-loc-info");
+                }
+                cmd.env_remove("OUT_DIR").env_remove("CARGO_MANIFEST_DIR").env("NO_COLOR", "1");
+                outcome = match cmd.output() {
+                    Ok(o) => {
+                        let text = String::from_utf8_lossy(&o.stdout).to_string() + &String::from_utf8_lossy(&o.stderr);
+                        if !o.status.success() {
+                            json!({"outcome": "panic", "class": "panic", "msg": text.chars().rev().take(200).collect::<String>().chars().rev().collect::<String>()})
+                        } else if text.contains("not generated") {
+                            json!({"outcome": "err", "class": "", "msg": ""})
+                        } else {
+                            json!({"outcome": "ok", "class": "", "msg": ""})
+                        }
+                    }
+                    Err(e) => json!({"outcome": "crash", "class": "", "msg": e.to_string()}),
+                };
+            }
             "generate" => {
                 let mut sv = req["settings"].clone();
-                sv["actions_in_source_tree"] = json!(true);
                 if let Some(f) = step.get("force") {
                     sv["force"] = f.clone();
                 }
-                let r = compile(&json!({"grammar_path": gp.to_str().unwrap(), "settings": sv,
-                                        "out_dir": dir.join("out").to_str().unwrap()}));
+                let r = if place == "adir" {
+                    if sv.get("force").is_none() {
+                        sv["force"] = json!(false);
+                    }
+                    compile(&json!({"grammar_path": gp.to_str().unwrap(), "settings": sv,
+                                    "out_dir": dir.join("out").to_str().unwrap(),
+                                    "out_dir_actions": dir.join("acts").to_str().unwrap()}))
+                } else {
+                    sv["actions_in_source_tree"] = json!(true);
+                    compile(&json!({"grammar_path": gp.to_str().unwrap(), "settings": sv,
+                                    "out_dir": dir.join("out").to_str().unwrap()}))
+                };
                 outcome = r;
             }
             "delete" => {
@@ -321,6 +366,30 @@ fn main() {
             let req: Value = serde_json::from_str(&std::fs::read_to_string(&args[2]).unwrap()).unwrap();
             let res = compile(&req);
             // the compiler prints progress on stdout; the result goes to a file
+            std::fs::write(req["result_path"].as_str().unwrap(), res.to_string()).unwrap();
+        }
+        Some("api-dir") => {
+            // Settings::process_dir over a tree, with exclusions
+            let req: Value = serde_json::from_str(&std::fs::read_to_string(&args[2]).unwrap()).unwrap();
+            let root = PathBuf::from(req["root"].as_str().unwrap());
+            let out_dir = req.get("out_dir").and_then(|x| x.as_str()).map(PathBuf::from);
+            let excl: Vec<String> = req["exclude"]
+                .as_array()
+                .map(|a| a.iter().map(|x| x.as_str().unwrap().to_string()).collect())
+                .unwrap_or_default();
+            let sv = req["settings"].clone();
+            let r = catch(move || {
+                let st = settings_from(&sv, out_dir.clone(), out_dir).root_dir(root).exclude(excl);
+                st.process_dir()
+            });
+            let res = match r {
+                Ok(Ok(())) => json!({"outcome": "ok", "class": "", "msg": ""}),
+                Ok(Err(e)) => {
+                    let (class, msg) = classify_error(&e);
+                    json!({"outcome": "err", "class": class, "msg": msg})
+                }
+                Err(p) => json!({"outcome": "panic", "class": "panic", "msg": p}),
+            };
             std::fs::write(req["result_path"].as_str().unwrap(), res.to_string()).unwrap();
         }
         Some("api-seq") => {
